@@ -3,7 +3,7 @@
    lemma of Proofs/Metrics*Proofs.v, with [Print Assumptions] beneath. *)
 From Coq Require Import QArith.
 From Coupe Require Import Lib.Prelude Lib.SFloat Lib.Csr Model.Metrics Proofs.MetricsCutProofs
-  Proofs.MetricsLambdaProofs Proofs.MetricsLoadProofs.
+  Proofs.MetricsLambdaProofs Proofs.MetricsLoadProofs Proofs.MetricsGridProofs.
 Open Scope Z_scope.
 
 (* the sparse-matrix specialisation (take_while on sorted rows) returns what the
@@ -55,6 +55,104 @@ Theorem C16_sprs_lambda_cut_def : forall g p ws k,
   sprs_lambda_cut g p ws = Ok (lambda_def k g p ws).
 Proof. exact sprs_lambda_cut_def. Qed.
 Print Assumptions C16_sprs_lambda_cut_def.
+
+(* ---- Grid (2D and 3D: the only grids coupe constructs) ---- *)
+
+(* index_of and position_of are inverse bijections between [0, len) and the box *)
+Theorem C16_grid_index_bij_2d : forall w h, (0 < w)%nat -> (0 < h)%nat ->
+  (forall i, (i < grid_len [w; h])%nat ->
+     index_of [w; h] (position_of [w; h] i) = i
+     /\ exists x y, position_of [w; h] i = [x; y] /\ (x < w)%nat /\ (y < h)%nat)
+  /\ (forall x y, (x < w)%nat -> (y < h)%nat ->
+     (index_of [w; h] [x; y] < grid_len [w; h])%nat
+     /\ position_of [w; h] (index_of [w; h] [x; y]) = [x; y]).
+Proof. exact grid_index_bij_2d. Qed.
+Print Assumptions C16_grid_index_bij_2d.
+
+Theorem C16_grid_index_bij_3d : forall w h d, (0 < w)%nat -> (0 < h)%nat -> (0 < d)%nat ->
+  (forall i, (i < grid_len [w; h; d])%nat ->
+     index_of [w; h; d] (position_of [w; h; d] i) = i
+     /\ exists x y z, position_of [w; h; d] i = [x; y; z] /\ (x < w)%nat /\ (y < h)%nat /\ (z < d)%nat)
+  /\ (forall x y z, (x < w)%nat -> (y < h)%nat -> (z < d)%nat ->
+     (index_of [w; h; d] [x; y; z] < grid_len [w; h; d])%nat
+     /\ position_of [w; h; d] (index_of [w; h; d] [x; y; z]) = [x; y; z]).
+Proof. exact grid_index_bij_3d. Qed.
+Print Assumptions C16_grid_index_bij_3d.
+
+(* u is yielded by neighbors(v) iff u is a cell whose position differs from v's by exactly
+   one on exactly one axis ([adjacent_pos]) *)
+Theorem C16_grid_neighbors_spec_2d : forall w h v u,
+  (0 < w)%nat -> (0 < h)%nat -> (v < grid_len [w; h])%nat ->
+  (In u (grid_neighbors [w; h] v)
+   <-> (u < grid_len [w; h])%nat /\ adjacent_pos (position_of [w; h] v) (position_of [w; h] u) = true).
+Proof. exact grid_neighbors_spec_2d. Qed.
+Print Assumptions C16_grid_neighbors_spec_2d.
+
+Theorem C16_grid_neighbors_spec_3d : forall w h d v u,
+  (0 < w)%nat -> (0 < h)%nat -> (0 < d)%nat -> (v < grid_len [w; h; d])%nat ->
+  (In u (grid_neighbors [w; h; d] v)
+   <-> (u < grid_len [w; h; d])%nat
+       /\ adjacent_pos (position_of [w; h; d] v) (position_of [w; h; d] u) = true).
+Proof. exact grid_neighbors_spec_3d. Qed.
+Print Assumptions C16_grid_neighbors_spec_3d.
+
+(* what [adjacent_pos] means, spelled out *)
+Theorem C16_adjacent_2d : forall x y x' y',
+  adjacent_pos [x; y] [x'; y'] = true
+  <-> (x = x' /\ (y + 1 = y' \/ y' + 1 = y))%nat \/ ((x + 1 = x' \/ x' + 1 = x) /\ y = y')%nat.
+Proof. exact adjacent_2d. Qed.
+Theorem C16_adjacent_3d : forall x y z x' y' z',
+  adjacent_pos [x; y; z] [x'; y'; z'] = true
+  <-> (x = x' /\ y = y' /\ (z + 1 = z' \/ z' + 1 = z))%nat
+   \/ (x = x' /\ (y + 1 = y' \/ y' + 1 = y) /\ z = z')%nat
+   \/ ((x + 1 = x' \/ x' + 1 = x) /\ y = y' /\ z = z')%nat.
+Proof. exact adjacent_3d. Qed.
+
+(* symmetric, duplicate-free *)
+Theorem C16_grid_neighbors_sym_2d : forall w h u v,
+  (0 < w)%nat -> (0 < h)%nat -> (u < grid_len [w; h])%nat -> (v < grid_len [w; h])%nat ->
+  (In u (grid_neighbors [w; h] v) <-> In v (grid_neighbors [w; h] u)).
+Proof. exact grid_neighbors_sym_2d. Qed.
+Theorem C16_grid_neighbors_sym_3d : forall w h d u v,
+  (0 < w)%nat -> (0 < h)%nat -> (0 < d)%nat ->
+  (u < grid_len [w; h; d])%nat -> (v < grid_len [w; h; d])%nat ->
+  (In u (grid_neighbors [w; h; d] v) <-> In v (grid_neighbors [w; h; d] u)).
+Proof. exact grid_neighbors_sym_3d. Qed.
+Theorem C16_grid_neighbors_nodup_2d : forall w h v,
+  (0 < w)%nat -> (0 < h)%nat -> (v < grid_len [w; h])%nat -> NoDup (grid_neighbors [w; h] v).
+Proof. exact grid_neighbors_nodup_2d. Qed.
+Theorem C16_grid_neighbors_nodup_3d : forall w h d v,
+  (0 < w)%nat -> (0 < h)%nat -> (0 < d)%nat -> (v < grid_len [w; h; d])%nat ->
+  NoDup (grid_neighbors [w; h; d] v).
+Proof. exact grid_neighbors_nodup_3d. Qed.
+Print Assumptions C16_grid_neighbors_nodup_3d.
+
+(* hence: the Grid's edge cut (default method on the neighbour iterator) is the number of
+   lattice edges whose ends lie in different parts *)
+Theorem C16_grid_cut_is_lattice_cut_2d : forall w h p,
+  (0 < w)%nat -> (0 < h)%nat -> (grid_len [w; h] <= length p)%nat ->
+  grid_edge_cut [w; h] p = Ok (lattice_cut [w; h] p).
+Proof. exact grid_cut_is_lattice_cut_2d. Qed.
+Print Assumptions C16_grid_cut_is_lattice_cut_2d.
+
+Theorem C16_grid_cut_is_lattice_cut_3d : forall w h d p,
+  (0 < w)%nat -> (0 < h)%nat -> (0 < d)%nat -> (grid_len [w; h; d] <= length p)%nat ->
+  grid_edge_cut [w; h; d] p = Ok (lattice_cut [w; h; d] p).
+Proof. exact grid_cut_is_lattice_cut_3d. Qed.
+Print Assumptions C16_grid_cut_is_lattice_cut_3d.
+
+Theorem C16_grid_lambda_def_2d : forall w h p ws k,
+  (0 < w)%nat -> (0 < h)%nat -> (grid_len [w; h] <= length p)%nat -> length ws = grid_len [w; h] ->
+  Forall (fun q => (q < k)%nat) p ->
+  grid_lambda_cut [w; h] p ws = Ok (lambda_def k (grid_rows [w; h]) p ws).
+Proof. exact grid_lambda_def_2d. Qed.
+Theorem C16_grid_lambda_def_3d : forall w h d p ws k,
+  (0 < w)%nat -> (0 < h)%nat -> (0 < d)%nat ->
+  (grid_len [w; h; d] <= length p)%nat -> length ws = grid_len [w; h; d] ->
+  Forall (fun q => (q < k)%nat) p ->
+  grid_lambda_cut [w; h; d] p ws = Ok (lambda_def k (grid_rows [w; h; d]) p ws).
+Proof. exact grid_lambda_def_3d. Qed.
+Print Assumptions C16_grid_lambda_def_3d.
 
 (* compute_parts_load = the per-part sums, for EVERY split tree of rayon's fold/reduce_with *)
 Theorem C16_loads_def : forall t k p ws,
@@ -141,4 +239,14 @@ Example C16_nonvacuous_loads :
   compute_parts_load (Node 2 Leaf (Node 1 Leaf Leaf)) 3 [2; 0; 2; 1; 0]%nat [5; 6; 7; 8; 9] = Ok [15; 8; 12]
   /\ max_imbalance Leaf 3 [2; 0; 2; 1; 0]%nat [5; 6; 7; 8; 9] = Ok 7
   /\ (imbalance_Q 3 [15; 8; 12]%Z == 2 # 7)%Q.
+Proof. vm_compute. repeat split; reflexivity. Qed.
+
+(* the 3x3 grid of coupe's own test, and a 2x2x2 grid *)
+Example C16_nonvacuous_grid :
+  map (grid_neighbors [3; 3]%nat) (seq 0 9)
+  = [[1; 3]; [0; 2; 4]; [1; 5]; [4; 0; 6]; [3; 5; 1; 7]; [4; 2; 8]; [7; 3]; [6; 8; 4]; [7; 5]]%nat
+  /\ grid_edge_cut [3; 3]%nat [0; 0; 1; 0; 1; 1; 2; 2; 1]%nat = Ok 6
+  /\ lattice_cut [3; 3]%nat [0; 0; 1; 0; 1; 1; 2; 2; 1]%nat = 6
+  /\ grid_edge_cut [2; 2; 2]%nat [0; 1; 0; 1; 1; 1; 0; 0]%nat = Ok 6
+  /\ lattice_cut [2; 2; 2]%nat [0; 1; 0; 1; 1; 1; 0; 0]%nat = 6.
 Proof. vm_compute. repeat split; reflexivity. Qed.
